@@ -30,7 +30,7 @@ def specs_for(ctx):
             tissue = {"kind": "equilibrium", "ncells": rng.choice([6, 12, 20, 35]), "mobius": rng.choice([0.0, 0.7, 1.4]),
                       "noise": rng.choice([0, 0.2, 0.6])}
             ext = 1.0
-        lim = rng.choice(["pi", "inf"] + [round(f * math.pi, 6) for f in limits] * 2)
+        lim = rng.choice(["pi", "pi", "pi", "inf"] + [round(f * math.pi, 6) for f in limits] * 2)
         method = rng.choice(["default", "default", "default", "lsq"])
         if method == "lsq" and tissue.get("ncells", 9) > 8:
             tissue["ncells"] = rng.choice([6, 8]) if ctx.quick else rng.choice([6, 8, 12])
